@@ -218,7 +218,9 @@ thread_local! {
 
 enum Held {
     Deploy { plan: DeployGroupPlan, outcomes: Vec<bool>, results: Option<Vec<DeployTaskResult>>, gens: Vec<u32> },
-    Teardown { plan: TeardownPlan, outcomes: Vec<bool>, executed: bool },
+    /// `snap`: the group's placements (name -> worker id, pipeline id) when the plan was made, read from the
+    /// coordinator state (NOT from the plan), so that 'changed since plan' does not depend on what the plan lists
+    Teardown { plan: TeardownPlan, outcomes: Vec<bool>, executed: bool, snap: Vec<(String, String, String)> },
     Migrate { plan: MigratePipelinePlan, source_alive: bool, deploy_ok: bool, delete_ok: bool, result: Option<Result<String, String>> },
 }
 
@@ -257,6 +259,17 @@ const EXCLUDED: &[&str] = &[
     "same-name-in-other-group-on-worker",
     "non-running-placement-migrated",
 ];
+
+/// the placements of a group as the coordinator records them: (name, worker id, pipeline id), sorted
+fn placement_snapshot(coord: &Coordinator, gid: &str) -> Vec<(String, String, String)> {
+    let mut v: Vec<(String, String, String)> = coord
+        .pipeline_groups
+        .get(gid)
+        .map(|g| g.placements.iter().map(|(n, d)| (n.clone(), d.worker_id.0.clone(), d.pipeline_id.clone())).collect())
+        .unwrap_or_default();
+    v.sort();
+    v
+}
 
 impl<'a> World<'a> {
     fn truth(&self) -> std::sync::MutexGuard<'_, Truth> {
@@ -386,10 +399,10 @@ impl<'a> World<'a> {
                         local("some-worker-restarted-since-plan");
                     }
                 }
-                Held::Teardown { plan, .. } => match self.coord.pipeline_groups.get(&plan.group_id) {
+                Held::Teardown { plan, snap, .. } => match self.coord.pipeline_groups.get(&plan.group_id) {
                     None => local("group-already-removed"),
-                    Some(g) => {
-                        if plan.tasks.iter().any(|(n, d)| g.placements.get(n).map(|c| c.worker_id != d.worker_id || c.pipeline_id != d.pipeline_id).unwrap_or(true)) || g.placements.values().filter(|d| !d.pipeline_id.is_empty()).count() != plan.tasks.len() {
+                    Some(_) => {
+                        if placement_snapshot(&self.coord, &plan.group_id) != *snap {
                             local("placement-changed-since-plan");
                         }
                         if plan.tasks.iter().any(|(n, d)| self.running_on(&d.worker_id).get(n).copied().unwrap_or(0) > 1) {
@@ -521,7 +534,7 @@ impl<'a> World<'a> {
                 };
                 *results = Some(r);
             }
-            Held::Teardown { plan, outcomes, executed } => {
+            Held::Teardown { plan, outcomes, executed, .. } => {
                 if *executed {
                     return;
                 }
@@ -707,8 +720,9 @@ fn run_in(env: &Env, http: bool, case: &Case) -> Outcome {
             Step::PlanTeardown { g, outcomes } => {
                 if !wd.groups.is_empty() {
                     let gid = wd.groups[g % wd.groups.len()].clone();
+                    let snap = placement_snapshot(&wd.coord, &gid);
                     if let Ok(plan) = wd.coord.plan_teardown_group(&gid) {
-                        wd.ops.push(Held::Teardown { plan, outcomes: outcomes.clone(), executed: false });
+                        wd.ops.push(Held::Teardown { plan, outcomes: outcomes.clone(), executed: false, snap });
                     }
                 }
             }
